@@ -87,10 +87,10 @@ Unset(F) ==
   /\ UNCHANGED <<shape, alive>> /\ Log([op |-> "unset_fields", names |-> F])
 
 \* replace() builds a new instance through __init__ and then OVERWRITES its set with the
-\* former set plus the changed fields
+\* former set plus the changed fields; an InitVar may be given too, it is not a field
 Replace(C) ==
-  /\ alive /\ Len(hist) <= MaxOps /\ C \subseteq (InitArgs(shape) \ InitVars(shape)) /\ C # {}
-  /\ fs' = fs \cup C /\ lo' = lo \cup C
+  /\ alive /\ Len(hist) <= MaxOps /\ C \subseteq InitArgs(shape) /\ C # {}
+  /\ fs' = fs \cup (C \ InitVars(shape)) /\ lo' = lo \cup (C \ InitVars(shape))
   /\ UNCHANGED <<shape, alive>> /\ Log([op |-> "replace", names |-> C])
 
 Next == \/ \E G \in SUBSET Names(shape) : Construct(G) \/ Deser(G)
